@@ -129,7 +129,7 @@ def gen_cases(res, n):
 
 
 def correspondence(res):
-    n = 1500 if res.tier == "quick" else 40000
+    n = 1500 if res.tier == "quick" else 12000
     terms, infos = gen_cases(res, n)
     corr = common.run_case_codes("C09", "corr", HEADER, terms, "c09_corr", chunk=250, ctype=CT)
     prop = common.run_case_codes("C09", "prop", HEADER, terms, "c09_prop", chunk=250, ctype=CT)
